@@ -34,6 +34,7 @@ P0 = {"p": [0.5, -0.25], "q": [0.25, 0.75]}
 PARTS = {  # trainer -> (pos, neg), dyadic so that sums are exact in float32
     1: ([0.5, 0.25], [0.125, 0.5]),
     2: ([0.25, 1.0], [0.5, 0.0625]),
+    3: ([0.375, 0.0625], [0.25, 0.375]),  # only contributed straight into the accumulator, so those states are not merged with others
 }
 MIN, MAX = -1.0, 1.0
 
@@ -194,6 +195,7 @@ class UpdaterSystem:
         yield ("contrib", 1, "none", "p")
         yield ("contrib", 1, "both", "q")
         yield ("contrib", 2, "tensor", "q")
+        yield ("contrib", 3, "direct", "p")  # straight into the accumulator: updater.p.pos = ..., updater.p.neg = ...
         yield ("update", True)
         yield ("update", False)
         yield ("clear",)
@@ -262,6 +264,11 @@ class UpdaterSystem:
                     st.neg[prm].append(neg)
                 elif kind == "both":
                     setattr(upd, prm, (tp, tn))
+                    st.pos[prm].append(pos)
+                    st.neg[prm].append(neg)
+                elif kind == "direct":
+                    getattr(upd, prm).pos = tp
+                    getattr(upd, prm).neg = tn
                     st.pos[prm].append(pos)
                     st.neg[prm].append(neg)
                 elif kind == "tensor":  # a bare tensor is a potentiating part
@@ -452,6 +459,67 @@ def _range_shard(form, kind, order, tier):
     return tally
 
 
+def layer_update_shard(depth, bounded):
+    """Layer.update / Layer.clear over a Biclique in which ONE connection feeds two neuron groups (two cells, one updater) next to
+    a connection with a single cell: every sequence of {contribute through a cell's updater, layer.update(clear), layer.clear} up
+    to the depth; after each step every connection's weight equals old + bound(sum pos) - bound(sum neg) applied once per update."""
+    from inferno.neural import Biclique, LinearDense, DeltaCurrent
+    from inferno.extra import ExactNeuron
+    tally = Tally()
+    ops = [("contrib", "c/x"), ("contrib", "c/y"), ("contrib", "d/x"), ("update", True), ("update", False), ("clear",)]
+    PP, NN = 0.25, 0.125
+
+    def build():
+        def conn():
+            c = LinearDense((1,), (1,), 1.0, synapse=DeltaCurrent.partialconstructor(spike_charge=1.0), batch_size=1, weight_init=lambda w: torch.full_like(w, 0.5))
+            c.updater = c.defaultupdater()
+            if bounded:
+                c.updater.weight.fullbound(fn.bound_multiplicative, 1.0, 0.0)
+            return c
+        neur = lambda: ExactNeuron((1,), 1.0, rest_v=-60.0, thresh_v=-45.0, batch_size=1)
+        return Biclique([("c", conn()), ("d", conn())], [("x", neur()), ("y", neur())])
+
+    for d in range(1, depth + 1):
+        for seq in itertools.product(ops, repeat=d):
+            if seq[-1][0] == "contrib":
+                continue  # (checked as a prefix of the longer sequences)
+            tally.add("evaluations")
+            case = {"part": "layer update with a connection shared by two cells", "bounded": bounded, "sequence": [list(o) for o in seq]}
+            try:
+                layer = build()
+                w = {"c": 0.5, "d": 0.5}
+                pend = {"c": [0, 0], "d": [0, 0]}
+                for op in seq:
+                    if op[0] == "contrib":
+                        cn, nn_ = op[1].split("/")
+                        layer.get_cell(cn, nn_).updater.weight = (torch.full((1, 1), PP), torch.full((1, 1), NN))
+                        pend[cn][0] += 1
+                        pend[cn][1] += 1
+                    elif op[0] == "update":
+                        layer.update(clear=op[1])
+                        for cn in w:
+                            if pend[cn][0]:
+                                pos, neg = PP * pend[cn][0], NN * pend[cn][1]
+                                w[cn] = w[cn] + ((1.0 - w[cn]) * pos - w[cn] * neg if bounded else pos - neg)
+                            if op[1]:
+                                pend[cn] = [0, 0]
+                    else:
+                        layer.clear()
+                        pend = {"c": [0, 0], "d": [0, 0]}
+                    tally.add("transitions")
+                for cn in w:
+                    got = float(layer.get_connection(cn).weight.reshape(-1)[0])
+                    if abs(got - w[cn]) > 1e-6:
+                        tally.violation(f"layer-update:shared-connection:{'bounded' if bounded else 'plain'}:{cn}", case,
+                                        f"connection '{cn}': weight {got}, one application per update gives {w[cn]}", w[cn], got)
+                tally.mark("nontrivial", ("layer-update", bounded, seq))
+            except Exception as ex:
+                tally.violation(f"exception:layer-update:{type(ex).__name__}", case, repr(ex))
+    tally.add("states", 1)
+    tally.sample({"part": "layer update, shared connection", "depth": depth, "bounded": bounded})
+    return tally
+
+
 def run(rep):
     quick = rep.tier == "quick"
     depth = 4 if quick else 5
@@ -476,6 +544,8 @@ def run(rep):
                 if order in (1.0, 2.0):  # ranges with a limit exactly 0
                     jobs.append((range_shard, (form, kind, order, rep.tier, (-1.0, 0.0))))
                     jobs.append((range_shard, (form, kind, order, rep.tier, (0.0, 1.0))))
+    for bounded in (False, True):
+        jobs.append((layer_update_shard, (depth, bounded)))
     tally = run_shards(jobs, seed=rep.seed)
     rep.tally.merge(tally)
     c = tally.counts
